@@ -1,5 +1,6 @@
 #!/bin/sh
-# Offline setup: syntax/semantic analysis of every specification module and the BigNat self-test.
+# Offline setup: syntax/semantic analysis of every specification module, the BigNat self-test, and the
+# generator cache for the quick tier (behaviours of spec/Gen.tla; independent of /repo).
 set -e
 cd "$(dirname "$0")"
 mkdir -p work evidence replays
@@ -8,4 +9,5 @@ for f in spec/*.tla; do
   if grep -q "error" work/sany.out && ! grep -q "Semantic processing of module" work/sany.out; then cat work/sany.out; exit 2; fi
 done
 python3 harness/selftest_bignat.py
+PYTHONDONTWRITEBYTECODE=1 PYTHONHASHSEED=0 /venv/bin/python -B harness/pregen.py
 echo "setup ok"
